@@ -372,3 +372,12 @@ Fixpoint mplay (fuel : nat) (ch : N) (st : strategy) (hist : list obs) (r : mrun
           end
       end
   end.
+
+(* ------------------------------------------------------------------ the first test of require() on the machine
+   `m_current.data + amount <= m_end` is pointer + size_t arithmetic: the sum wraps modulo
+   2^64 (formally undefined behaviour; this is what the compiled code does).  `base` is the
+   address of the allocation, cur/end_ the offsets, all as N.  The executable model above uses
+   the unwrapped test `cur + n <=? end_`; the two agree unless base + cur + amount >= 2^64,
+   which only internal::everything (amount = size_t( -1 )) provokes. *)
+Definition early_return_wrapped (base cur e amount : N) : bool :=
+  ((base + cur + amount) mod 2 ^ 64 <=? base + e)%N.
